@@ -15,6 +15,7 @@ TInit == /\ t \in 1 .. NT
          /\ l = 2
          /\ shape = Traces[t][1].shape
          /\ cache = Traces[t][1].cache
+         /\ rerr = InitErr(Traces[t][1].shape)
          /\ last = Outcome(NoReq, Ok(Null), NoCalls, Null, Null)
          /\ (Traces[t][1].cache # InitCache(Traces[t][1].shape) => PrintT(<<"DEV", t, 1, "init.cache">>))
 
@@ -26,6 +27,7 @@ Broken(e, R) ==   \* the first clause of the demanded outcome R that the observe
   ELSE IF e.calls # o.calls THEN "driver.calls"
   ELSE IF \E i \in 1 .. Len(e.hookargs) : e.hookargs[i] # o.hookarg THEN "hook.arg"
   ELSE IF e.cache # R.cache THEN "cache"
+  ELSE IF e.rerr # R.rerr THEN "readerror"           \* the read-error state of the parameters
   ELSE IF \E m \in DOMAIN shape : \E a \in Params(m) : ~InDatainfo(shape[m][a].dt, e.cache[m][a]) THEN "cache.datainfo"
   ELSE IF o.hassnap /\ SeqSet(e.upd) # o.snap THEN "snapshot"       \* activate: exactly the snapshot updates
   ELSE IF ~o.hassnap /\ (IF o.upd = Null THEN e.upd # <<>> ELSE \E i \in 1 .. Len(e.upd) : e.upd[i] # o.upd) THEN "updates"
@@ -33,13 +35,14 @@ Broken(e, R) ==   \* the first clause of the demanded outcome R that the observe
 
 TStep ==
   /\ l <= Len(Traces[t])
-  /\ LET R == Result(cache, Ev.req)
+  /\ LET R == Result(cache, rerr, Ev.req)
          b == Broken(Ev, R)
      IN /\ (b # "" => PrintT(<<"DEV", t, l, b>>))
         /\ last' = R.out
   \* go on from the observed cache - unless it holds something that is no value at all (then from the demanded one)
   /\ cache' = IF \A m \in DOMAIN shape : \A a \in Params(m) : InDatainfo(shape[m][a].dt, Ev.cache[m][a])
-              THEN Ev.cache ELSE Result(cache, Ev.req).cache
+              THEN Ev.cache ELSE Result(cache, rerr, Ev.req).cache
+  /\ rerr' = Ev.rerr
   /\ (l = Len(Traces[t]) => PrintT(<<"END", t, l>>))
   /\ l' = l + 1 /\ t' = t
   /\ UNCHANGED shape
